@@ -10,7 +10,7 @@ import json, os, random, time
 import verif as V
 
 WRAPS = V.SIM_WRAPS + ['coap_malloc_type', 'coap_realloc_type', 'coap_free_type']
-SCENARIOS = ['setup', 'get', 'block1', 'block2', 'observe', 'uri', 'async', 'oscore', 'oscore2', 'rawblock1']
+SCENARIOS = ['setup', 'get', 'block1', 'block2', 'observe', 'uri', 'async', 'oscore', 'oscore2', 'rawblock1', 'wkc']
 
 
 def run(pid, tier):
